@@ -13,6 +13,7 @@ REQ = ("From Coq Require Import List NArith ZArith.\nFrom Delb.Base Require Impo
        "  match o with None => [999999%N] | Some ls => N.of_nat (length ls) :: flat_map (fun l => N.of_nat (length l) :: l) ls end.\n")
 
 WORD_CHARS = "abcxyz&<>é中"
+XML_NS = "http://www.w3.org/XML/1998/namespace"
 
 
 def gen_near_fit(rng):
@@ -65,8 +66,9 @@ def gen_case(rng, quick):
         case["lead"] = rng.choice([" ", "  ", "\n", "\n   "])
     if rng.random() < 0.25:
         case["trail"] = rng.choice([" ", "  ", "\n"])
-    if rng.random() < 0.15:
-        case["sep"] = rng.choice(["  ", "\n", " \t "])
+    if rng.random() < 0.2:
+        # longer runs, and white space outside ASCII (str.isspace / regex \\s: collapsed like any other)
+        case["sep"] = rng.choice(["  ", "\n", " \t ", "\u3000", "\u00a0", " \u2003 ", "\u2009\n"])
     # the element's text spread over several adjacent text nodes (API-made), cut anywhere, also at whitespace
     if rng.random() < 0.3:
         text = source_text(case)
@@ -93,6 +95,19 @@ def run_impl(case):
     xml, escaped = doc_for(case)
     with no_gc():
         doc = Document(xml)
+        if case.get("toggle"):
+            # the element carried xml:space="preserve" during an earlier serialization; the directive is then removed
+            # (or set to "default"): what is written afterwards must not remember the earlier state
+            p = doc.root
+            while p.local_name != "p":
+                p = p[0]
+            p.attributes[(XML_NS, "space")] = "preserve"
+            doc.root.serialize(format_options=FormatOptions(width=case["width"], indentation=case["indentation"],
+                                                             align_attributes=False))
+            if case["toggle"] == "delete":
+                del p.attributes[(XML_NS, "space")]
+            else:
+                p.attributes[(XML_NS, "space")] = "default"
         if case.get("pieces"):
             p = doc.root
             while p.local_name != "p":
@@ -238,7 +253,7 @@ def run(ctx, args):
         with open(args.replay) as f:
             rep = json.load(f)
         if rep.get("case"):
-            check_cases(ctx, [{k: rep["case"][k] for k in ("words", "width", "indentation", "depth", "lead", "trail", "sep", "pieces")
+            check_cases(ctx, [{k: rep["case"][k] for k in ("words", "width", "indentation", "depth", "lead", "trail", "sep", "pieces", "toggle")
                                if k in rep["case"]}])
         return ctx.finish("replay of " + args.replay, replay_open=replay_open)
     quick = ctx.tier == "quick"
@@ -270,6 +285,14 @@ def run(ctx, args):
                 words = ["Q&A"] * n           # 3 characters raw, 7 written
                 cases.append({"words": words, "width": w, "indentation": "  ", "depth": depth})
                 cases.append({"words": words + ["a<b"], "width": w, "indentation": " ", "depth": depth})
+    for w in (5, 9, 16):
+        for toggle in ("delete",):
+            for depth in (0, 1, 2):
+                cases.append({"words": ["ab", "cde", "f", "ghij", "kl"], "width": w, "indentation": "  ", "depth": depth,
+                              "toggle": toggle})
+        for sep in ("\u3000", "\u00a0", "\u2003"):
+            cases.append({"words": ["alpha", "beta", "gamma"], "width": w, "indentation": " ", "depth": 1, "sep": sep})
+            cases.append({"words": ["a", "b", "c", "d"], "width": w, "indentation": "", "depth": 0, "sep": sep, "lead": sep})
     for _ in range(700 if quick else 15000):
         cases.append(gen_case(ctx.rng, quick))
     check_cases(ctx, cases)
